@@ -5,6 +5,7 @@ package c19
 import (
 	"fmt"
 	"math/big"
+	"strings"
 
 	"k8s.io/apimachinery/pkg/api/resource"
 )
@@ -85,7 +86,8 @@ func judge(pc podCase, o *outcome) []finding {
 	fr, me, de := mk(kFraction, pc.Fraction), mk(kMemory, pc.Memory), mk(kDevices, pc.Devices)
 	anns := []annVal{fr, me, de}
 	sharingRequested := fr.present || me.present
-	// the annotation a whole-pod disagreement is attributed to: the malformed one if any, else the portion
+	// the annotation a whole-pod disagreement is attributed to: a malformed one if any, else the first one whose
+	// notation (preferSyntax) or value range is unusual, else the first present
 	culprit := func(preferSyntax bool) string {
 		for _, a := range anns {
 			if a.present && !inDomain(a.kind, a.ref) {
@@ -93,7 +95,7 @@ func judge(pc podCase, o *outcome) []finding {
 			}
 		}
 		for _, a := range anns {
-			if a.present && causeClass(a.kind, a.s, preferSyntax) != "in-range" && causeClass(a.kind, a.s, preferSyntax) != "plain" {
+			if a.present && causeClass(a.kind, a.s, preferSyntax) != "plain-in-range" {
 				return a.tag(preferSyntax)
 			}
 		}
@@ -104,7 +106,7 @@ func judge(pc podCase, o *outcome) []finding {
 		}
 		return "annotation=none class=none"
 	}
-
+	unusualRange := func(a annVal) bool { return a.present && a.ref.Valued && rangeTag(a.kind, a.ref) != "in-range" }
 	// (6a) admission must not panic on ANY input (it is the component that sees arbitrary strings)
 	if o.AdmPanic != "" {
 		add("admission-panics "+culprit(true), "admission webhook panicked: %s", short(o.AdmPanic, 200))
@@ -223,25 +225,22 @@ func judge(pc podCase, o *outcome) []finding {
 				switch wantType {
 				case "Fraction":
 					got := ratOfFloat(o.SPortion)
-					if !near(got, fr.ref.Rat, ratZero, relTol) {
+					if !near(got, fr.ref.Rat, relTol, ratZero) {
 						add("scheduler-alters-accepted field=portion "+fr.tag(false), "scheduler portion %v, reference %s", o.SPortion, fr.ref.Rat.FloatString(12))
 					} else {
 						wantG := new(big.Rat).Mul(wantCount, fr.ref.Rat)
 						tol := new(big.Rat).Mul(wantCount, centTol)
 						gotG := ratOfFloat(o.SGPUs)
+						zero := gotG == nil || gotG.Sign() <= 0 || !o.SRequireGPU
 						switch {
-						case gotG == nil || gotG.Sign() <= 0 || !o.SRequireGPU:
+						case zero && rangeTag(kFraction, fr.ref) == "lt-0.005":
+							add("scheduler-rounds-accepted-to-zero "+fr.tag(false), "accepted request of %s x %s GPU is accounted as %v GPUs (needs-gpu=%v) by the scheduler", wantCount.FloatString(0), fr.s, o.SGPUs, o.SRequireGPU)
+						case zero || !near(gotG, wantG, tol, relTol):
 							cause := fr
-							if rangeTag(kFraction, fr.ref) == "in-range" && de.present {
+							if unusualRange(de) || !unusualRange(fr) && de.present {
 								cause = de
 							}
-							add("scheduler-rounds-accepted-to-zero "+cause.tag(false), "accepted request of %s x %s GPU is accounted as %v GPUs (needs-gpu=%v) by the scheduler", wantCount.FloatString(0), fr.s, o.SGPUs, o.SRequireGPU)
-						case !near(gotG, wantG, tol, relTol):
-							cause := de
-							if !de.present {
-								cause = fr
-							}
-							add("scheduler-alters-accepted field=gpus "+cause.tag(false), "scheduler accounts %v GPUs, reference %s (+-%s)", o.SGPUs, wantG.FloatString(6), tol.FloatString(3))
+							add("scheduler-alters-accepted field=gpus "+cause.tag(false), "scheduler accounts %v GPUs (needs-gpu=%v), reference %s (+-%s)", o.SGPUs, o.SRequireGPU, wantG.FloatString(6), tol.FloatString(3))
 						}
 					}
 				case "GpuMemory":
@@ -269,16 +268,16 @@ func judge(pc podCase, o *outcome) []finding {
 	if o.BinderPanic == "" && sharingRequested {
 		if fr.present {
 			if o.HFracErr != "" {
-				add("binder-helper-rejects-accepted helper=GetGPUFraction "+fr.tag(true), "%s", o.HFracErr)
-			} else if !near(ratOfFloat(o.HFrac), fr.ref.Rat, ratZero, relTol) {
-				add("binder-helper-alters-accepted helper=GetGPUFraction "+fr.tag(false), "got %v, reference %s", o.HFrac, fr.ref.Rat.FloatString(12))
+				add("helper-rejects-accepted helper=resources.GetGPUFraction "+fr.tag(true), "%s", o.HFracErr)
+			} else if !near(ratOfFloat(o.HFrac), fr.ref.Rat, relTol, ratZero) {
+				add("helper-alters-accepted helper=resources.GetGPUFraction "+fr.tag(false), "got %v, reference %s", o.HFrac, fr.ref.Rat.FloatString(12))
 			}
 		}
 		if me.present {
 			if m, ok := ratInt64(me.ref.Rat); o.HMemErr != "" {
-				add("binder-helper-rejects-accepted helper=GetGPUMemory "+me.tag(false), "%s", o.HMemErr)
+				add("helper-rejects-accepted helper=resources.GetGPUMemory "+me.tag(false), "%s", o.HMemErr)
 			} else if !ok || m != o.HMem {
-				add("binder-helper-alters-accepted helper=GetGPUMemory "+me.tag(false), "got %d, reference %s", o.HMem, me.ref.Rat.FloatString(0))
+				add("helper-alters-accepted helper=resources.GetGPUMemory "+me.tag(false), "got %d, reference %s", o.HMem, me.ref.Rat.FloatString(0))
 			}
 		}
 		countAnn := de
@@ -290,14 +289,14 @@ func judge(pc podCase, o *outcome) []finding {
 		}
 		n, ok := ratInt64(wantCount)
 		if o.HDevErr != "" {
-			add("binder-helper-rejects-accepted helper=GetNumGPUFractionDevices "+countAnn.tag(false), "%s", o.HDevErr)
+			add("helper-rejects-accepted helper=resources.GetNumGPUFractionDevices "+countAnn.tag(false), "%s", o.HDevErr)
 		} else if !ok || n != o.HDev {
-			add("binder-helper-alters-accepted helper=GetNumGPUFractionDevices "+countAnn.tag(false), "got %d, reference %s", o.HDev, wantCount.FloatString(0))
+			add("helper-alters-accepted helper=resources.GetNumGPUFractionDevices "+countAnn.tag(false), "got %d, reference %s", o.HDev, wantCount.FloatString(0))
 		}
 		if o.HMultiErr != "" {
-			add("binder-helper-rejects-accepted helper=IsMultiFraction "+countAnn.tag(false), "%s", o.HMultiErr)
+			add("helper-rejects-accepted helper=resources.IsMultiFraction "+countAnn.tag(false), "%s", o.HMultiErr)
 		} else if o.HMulti != (wantCount.Cmp(ratOne) > 0) {
-			add("binder-helper-alters-accepted helper=IsMultiFraction "+countAnn.tag(false), "got %v, reference count %s", o.HMulti, wantCount.FloatString(0))
+			add("helper-alters-accepted helper=resources.IsMultiFraction "+countAnn.tag(false), "got %v, reference count %s", o.HMulti, wantCount.FloatString(0))
 		}
 		// per-container selection: admission injects into exactly the selected container, the binder resolves the
 		// same container and the same config-map names
@@ -323,9 +322,30 @@ func judge(pc podCase, o *outcome) []finding {
 
 	// podgroup controller: the fourth reader
 	if sharingRequested {
+		portionAnn := fr
+		if !fr.present {
+			portionAnn = me
+		}
 		if o.PgcReqPanic == "" {
 			if o.PgcReqErr != "" {
-				add("podgroupcontroller-rejects-accepted stage=requested "+culprit(true), "%s", short(o.PgcReqErr, 200))
+				// attribute by the stage that failed inside ExtractGPUSharingRequestedResources
+				who := culprit(true)
+				switch {
+				case strings.Contains(o.PgcReqErr, "failed to parse gpu fraction count"):
+					who = de.tag(true)
+				case strings.Contains(o.PgcReqErr, "failed to extract int value"):
+					who = de.tag(false)
+				case strings.Contains(o.PgcReqErr, "failed to parse gpu fraction annotation"):
+					who = fr.tag(true)
+				case strings.Contains(o.PgcReqErr, "failed to parse gpu memory"):
+					who = me.tag(true)
+				case strings.Contains(o.PgcReqErr, "failed to multiple"):
+					who = portionAnn.tag(false)
+					if unusualRange(de) || !unusualRange(portionAnn) && de.present {
+						who = de.tag(false)
+					}
+				}
+				add("podgroupcontroller-rejects-accepted stage=requested "+who, "%s", short(o.PgcReqErr, 200))
 			} else {
 				nanoPerDev := new(big.Rat).Mul(wantCount, relTol)
 				if fr.present {
@@ -344,14 +364,14 @@ func judge(pc podCase, o *outcome) []finding {
 		}
 		if o.PgcRecvPanic == "" {
 			if o.PgcRecvErr != "" {
-				add("podgroupcontroller-rejects-accepted stage=received "+culprit(true), "%s", short(o.PgcRecvErr, 200))
+				add("podgroupcontroller-rejects-accepted stage=received "+portionAnn.tag(false), "%s", short(o.PgcRecvErr, 200))
 			} else {
 				want := fr.ref.Rat
 				if !fr.present {
 					want = new(big.Rat).Quo(me.ref.Rat, big.NewRat(nodeGPUMemoryMiB, 1))
 				}
 				if !near(ratOfQuantity(o.PgcRecvGPU), want, relTol, relTol) {
-					add("podgroupcontroller-alters-accepted stage=received "+culprit(false), "received %v, reference %s", o.PgcRecvGPU, want.FloatString(12))
+					add("podgroupcontroller-alters-accepted stage=received "+portionAnn.tag(false), "received %v, reference %s", o.PgcRecvGPU, want.FloatString(12))
 				}
 			}
 		}
